@@ -25,7 +25,7 @@ import sys
 from drivers import simos_kernel as sk
 
 HOME = os.environ.get("VERIF_HOME") or os.path.dirname(os.path.dirname(os.path.dirname(os.path.abspath(__file__))))
-SCRATCH = os.path.join(HOME, "out", "arbiter_scratch", str(os.getpid()))
+SCRATCH = os.path.join(os.environ.get("VERIF_OUT") or os.path.join(HOME, "out"), "arbiter_scratch", str(os.getpid()))
 
 _CUR = {"kernel": None, "settings": None, "hups": None, "nreload": 0}
 
